@@ -20,18 +20,21 @@ def theorems():
     return '\n'.join(out)
 
 def seeds():
-    out = ['| change | files | what it breaks | needs | reported by `bin/check <id> quick` |', '|---|---|---|---|---|']
-    n = det = conc = 0
+    out = ['| change | files | what it breaks | needs | reported by `bin/check <id>` (quick tier unless said otherwise) |', '|---|---|---|---|---|']
+    n = det = conc = thor = 0
     for m in sorted(glob.glob('/verif/seeded/C*/meta.json')):
         d = json.load(open(m))
         c = d['checked_against']
         n += 1; det += bool(c['detected']); conc += bool(c['with_concrete_input'])
         rep = (c['reported'][0] if c['reported'] else '')[:170].replace('|', '/')
         how = ('concrete input: ' if c['with_concrete_input'] else 'no-failing-input-found: ') if c['detected'] else 'NOT DETECTED'
+        if 'thorough' in c['command']:
+            how = 'thorough tier only; ' + how
+            thor += 1
         needs = re.sub(r'\s+', ' ', d['needs_to_manifest'])[:150].replace('|', '/')
         out.append(f"| {d['name']} | {', '.join(d['files_changed'])} | {d['summary'][:100].replace('|','/')} | {needs} | {how}{rep} |")
     out.append('')
-    out.append(f'{n} seeded changes, {det} reported by the check of their property at the quick tier, {conc} of them with a concrete failing input as replay.')
+    out.append(f'{n} seeded changes, {det} reported by the check of their property ({det - thor} at the quick tier, {thor} only at the thorough tier), {conc} of them with a concrete failing input as replay; the others are reported as a broken correspondence (model and implementation differ on named cases) with `no-failing-input-found`.')
     return '\n'.join(out)
 
 gen = {'theorems': theorems, 'seeds': seeds}
